@@ -21,6 +21,7 @@ type TV struct {
 	S     string   `json:"s,omitempty"`
 	B     bool     `json:"b,omitempty"`
 	Nil   bool     `json:"nil,omitempty"` // (typed Object/List flavours) this entry is a nil interface value
+	Raw   RawBytes `json:"raw,omitempty"` // T == "rawstring": a Go string holding these bytes (not necessarily UTF-8)
 	Items []TV     `json:"items,omitempty"`
 	Keys  []string `json:"keys,omitempty"`
 }
@@ -120,6 +121,14 @@ func genScalarTV(t *rapid.T) TV {
 			f = []float64{math.Inf(1), math.Inf(-1), math.NaN()}[drawIdx(t, 3, "nf64")]
 		}
 		return TV{T: "float64", F: math.Float64bits(f)}
+	}
+	if oneIn(t, 6, "rawstring") {
+		// Go strings are byte strings: ill-formed UTF-8 and binary data are stored and handed back unchanged
+		raw := [][]byte{{0xff}, {'a', 0xc3}, {0xed, 0xa0, 0x80}, {0xc0, 0xaf}, {0, 1, 2, 0xfe, 0xff}, {0xf0, 0x9f, 0x98}, []byte("ok\x80ok")}[drawIdx(t, 7, "rawk")]
+		if drawBool(t, "rnd") {
+			raw = rapid.SliceOfN(rapid.Byte(), 1, 12).Draw(t, "rawbytes")
+		}
+		return TV{T: "rawstring", Raw: RawBytes(raw)}
 	}
 	return TV{T: "string", S: GenString(t, 6)}
 }
@@ -231,6 +240,8 @@ func toGo(tv TV) any {
 		return tv.B
 	case "string":
 		return tv.S
+	case "rawstring":
+		return string(tv.Raw)
 	case "int":
 		return int(tv.I)
 	case "int8":
@@ -455,6 +466,8 @@ func expectTV(tv TV) (V, bool) {
 		return VBool(tv.B), true
 	case "string":
 		return VStr(tv.S), true
+	case "rawstring":
+		return VStr(string(tv.Raw)), true
 	case "int", "int8", "int16", "int32", "int64":
 		return V{K: KInt, I: tv.I}, true
 	case "uint", "uint8", "uint16", "uint32", "uint64":
